@@ -111,10 +111,6 @@ def gen_shape(rng, entry: str) -> dict:
         sh["generic"] = "typevar"
         sh["target"] = rng.choice(["subclass", "alias"]) if entry == "codec_dc" else "subclass"
     sh["position"] = rng.choices(["top", "self_opt", "self_list", "inner"], weights=[50, 18, 12, 20])[0]
-    if sh["target"] == "alias" and sh["position"] in ("self_opt", "self_list"):
-        # excluded (not a C10 matter, fails without any customization): a codec of a specialised generic alias
-        # Box[int] whose class has a Self-typed field raises AttributeError / InvalidFieldValue on /repo
-        sh["position"] = "top"
     sh["config_at"] = rng.choice(["own", "own", "parent"]) if (sh["decl"] != "own" or sh["generic"] == "typevar") else "own"
     sh["config_style"] = rng.choice(["base", "base", "plain"])
     sh["decoy"] = rng.choice(["f1", "f2", "both"]) if sh["decl"].startswith("redeclare") else "none"
@@ -210,9 +206,9 @@ def creation_recursion(case: dict) -> bool:
 # ---------------------------------------------------------------------------------------
 
 PRELUDE = '''
-import datetime, sys
+import datetime, decimal, sys
 from dataclasses import dataclass, field
-from typing import Annotated, Any, Dict, Generic, List, NewType, Optional, Self, Tuple, TypeVar
+from typing import Annotated, Any, Dict, Generic, List, NewType, Optional, Self, Tuple, TypeVar, Union
 from mashumaro import DataClassDictMixin, pass_through
 from mashumaro.config import BaseConfig, ADD_DIALECT_SUPPORT
 from mashumaro.dialect import Dialect
@@ -1063,6 +1059,19 @@ def generate_cases(ctx: vlib.Ctx) -> list[dict]:
     return cases
 
 
+def self_generic_codec_defect(case: dict, d: str, obs: dict) -> bool:
+    """Known finding C10/self-in-specialised-generic-codec (independent of any customization): codec of a
+    specialised generic alias Box[X] whose class has a Self-typed field; the Self call names an unspecialised
+    method that is never created."""
+    sh = {**DEFAULT_SHAPE, **case.get("shape", {})}
+    if not (case["entry"] == "codec_dc" and sh["generic"] == "typevar" and sh["target"] == "alias"
+            and sh["position"] in ("self_opt", "self_list") and "error" in obs):
+        return False
+    e = obs["error"]
+    return (d == "ser" and e.startswith("AttributeError") and "__mashumaro_to_dict" in e) or \
+           (d == "de" and e.startswith("InvalidFieldValue") and ('"nxt"' in e or '"kids"' in e))
+
+
 def classify(case: dict, d: str, obs: dict):
     """None if the observation is what the property demands, else (what, signature)."""
     exp = oracle_expected(case, d)
@@ -1086,6 +1095,7 @@ def run(ctx: vlib.Ctx):
         "field type (List[int], Dict[str,int], date) x a subset of the 2 field slots + (level x key) slots with a variant "
         "per slot (dict both/one direction, pass_through, dict with pass_through, strategy object, use_annotations strategy); "
         "x shape (field declared in the class / inherited / re-declared over a base declaration with decoy options; type written directly or through a TypeVar of a specialised generic dataclass; observed on the top object, on a Self-typed child, or on a nested dataclass; Config own/inherited, BaseConfig subclass/plain class); "
+        "+ path cases: a chain of up to 3 dataclasses (nested field, List/Dict of the nested class, Optional[Self] / Tuple[Self,...] children; each class with or without ADD_DIALECT_SUPPORT, also the called one; decoy Config tables on the classes that do not own the field) ending in a field whose type is a term over Annotated / NewType / Optional / Union / List / Dict-value / leaf (date, Decimal) of depth <= 4, slots for every type object of the term at every level, observed by value position; "
         "each case is observed in both directions; distinct = distinct (entry, alias, type, slots->variant, direction); "
         "non-trivial = at least one slot present. quick: fixed probes + 1500 sampled; thorough: every presence subset per entry point (format mixin: every subset of its 12 table slots, field slots sampled)")
     ctx.trusted += [
@@ -1095,22 +1105,25 @@ def run(ctx: vlib.Ctx):
         "the tagged callables identify the slot they are registered at; `is` identity distinguishes pass_through from the built-in copy",
         "Registry.get (K5 registry_prepare): get_real_type / get_type_origin / is_annotated are function parameters (theorem C10_keys holds for all of them); the handler loop and ValueSpec.__setattr__ are matched textually; validated against the real Registry.get with the real primitives each run",
         "CodeBuilder.dataclass_fields (K5): classes are abstracted to getattr(cls, '__dataclass_fields__') per MRO entry, own annotated names and cls.__dict__; x[-1:0:-1] / x[1:] are named primitives validated against CPython; that @dataclass fills __dataclass_fields__ as CPython does is not modelled (the real-class runs with inherited / re-declared fields cover it)",
-        "how the call dialect / format dialect reach Self-typed children and nested dataclasses (flag forwarding in pack/unpack) is not in the model: it is covered by the `position` dimension of the real-class runs only",
+        "positions below a field (Positions.v, K5PKernel.compile): translated = Registry.get, the first handler, the spec.copy of the NewType / Optional / collection-element / Union-member descent sites, the class handed to get_(un)pack_method_flags at the dataclass and Self call sites, get_pack_method_flags (K8) and get_unpack_method_flags (K5P); hand-written glue (tied by the real-class path cases only) = which descent site a type takes (is_new_type / is_optional / collection / union dispatch of pack_/unpack_special_typing_primitive and *_collection), that a declined node continues with that site, the fresh ValueSpec of a dataclass field (checked textually), Tuple[Self, ...] treated like a collection element, and that the generated method runs with `dialect` = the forwarded keyword",
+        "value-dependent selection among Union members (which member packs/unpacks a value) is C11's subject: path cases always use the first member and a second member (int) that never accepts the value",
     ]
     ctx.assumptions += ["strategy values are pass_through, dicts with serialize/deserialize entries, or SerializationStrategy instances (other values are ignored by the code; covered only by the kernel validation)"]
     br = ctx.theorems("props/C10_precedence.vo", ["C10_precedence", "C10_empty", "C10_pass_through", "C10_sym", "C10_keys"],
                       kernels=["K5"])
     br2 = ctx.theorems("props/C10_single.vo", ["C10_single_application_partial", "C10_single_application_refuted"], kernels=["K5"])
     br3 = ctx.theorems("props/C10_fields.vo", ["C10_field_decl"], kernels=["K5"])
-    proofs_ok = br.ok and br2.ok and br3.ok and ctx.kernel_report.get("K5", {}).get("ok")
+    br4 = ctx.theorems("props/C10_positions.vo", ["C10_positions", "C10_dialect_reaches", "C10_format_dialect_everywhere"],
+                       kernels=["K5", "K5P", "K8"])
+    proofs_ok = br.ok and br2.ok and br3.ok and br4.ok and all(ctx.kernel_report.get(k, {}).get("ok") for k in ("K5", "K5P", "K8"))
     if proofs_ok and not ctx.quick():
         # second opinion: the independent checker on the compiled property files
         with vlib.Lock("build"):
             rc, out, _ = vlib.run(["timeout", "600", "coqchk", "-silent", "-o", "-Q", "theories", "Verif", "-Q", "gen", "VerifGen",
-                                   "-Q", "props", "VerifProps", "VerifProps.C10_precedence", "VerifProps.C10_single", "VerifProps.C10_fields"],
+                                   "-Q", "props", "VerifProps", "VerifProps.C10_precedence", "VerifProps.C10_single", "VerifProps.C10_fields", "VerifProps.C10_positions"],
                                   cwd=vlib.COQ, timeout=640)
         ok = rc == 0 and "Axioms: <none>" in out
-        ctx.obligation("coqchk -o (C10_precedence, C10_single, C10_fields): no axioms", ok, out[-600:])
+        ctx.obligation("coqchk -o (C10_precedence, C10_single, C10_fields, C10_positions): no axioms", ok, out[-600:])
         if not ok:
             ctx.not_shown("coqchk", out[-1500:])
 
@@ -1154,6 +1167,12 @@ def run(ctx: vlib.Ctx):
             else:
                 obs = res[d]
             ctx.count(key, nontrivial=bool(case["slots"]))
+            if self_generic_codec_defect(case, d, obs):
+                ctx.fail(f"codec of a specialised generic alias with a Self field ({d}): {obs['error'][:120]}",
+                         {"entry": case["entry"], "dir": d, "case": case, "source": build_source(case),
+                          "observed": obs, "expected": oracle_expected(case, d)},
+                         {"kind": "self-in-specialised-generic-codec"})
+                continue          # the model has no such failure; nothing to compare
             w = oracle_winner(case, d)
             ctx.hist("winner", w or "builtin")
             coq_cases.append(coq_case(case, d, obs))
@@ -1200,8 +1219,90 @@ def run(ctx: vlib.Ctx):
     if not done:
         compare("tagged-classes-vs-model", "PyK_strat Strategies", "", COQ_DEFS_MODEL, "model_ok", ["theories/Strategies.vo"])
 
+    paths_part(ctx, bool(proofs_ok))
+
+
+def _path_worker(src):
+    try:
+        return exec_source(src)
+    except Exception as e:  # noqa: BLE001
+        return {"class_error": "harness: " + type(e).__name__ + ": " + str(e)[:200]}
+
+
+def paths_part(ctx: vlib.Ctx, proofs_ok: bool):
+    """positions below a field (NewType / Optional / collection element / nested dataclass / Self child):
+    real classes vs K5PKernel.compile + Positions.ref_compile (in Coq) and vs the property-text oracle."""
+    from harness.props import c10_paths as cp
+    rng = ctx.rng
+    n = ctx.budget(450, 3000) + (0 if proofs_ok else 600)
+    cases = [cp.gen_path_case(rng) for _ in range(n)]
+    srcs = [cp.build_source(c, PRELUDE) for c in cases]
+    if len(cases) > 1500:
+        with multiprocessing.get_context("fork").Pool(8) as pool:
+            results = pool.map(_path_worker, srcs, chunksize=64)
+    else:
+        results = [_path_worker(s) for s in srcs]
+    coq_cases, descr = [], []
+    for case, src, res in zip(cases, srcs, results):
+        ctx.hist("path_links", "+".join(case["links"]) or "none")
+        ctx.hist("path_type_depth", str(len(cp.Term(case["type"]).nodes)))
+        for d in ("ser", "de"):
+            obs = {"error": res["class_error"]} if "class_error" in res else res[d]
+            exp = cp.expected_obs(case, d)
+            w, node = cp.oracle(case, d)
+            ctx.hist("path_winner_node", "builtin" if w is None else f"node{node}")
+            ctx.count(("path", case["entry"], repr(case["type"]), tuple(case["links"]), tuple(case["supports"]),
+                       tuple(sorted(case["slots"].items())), d), nontrivial=bool(case["slots"]))
+            coq_cases.append(cp.coq_case(case, d, obs))
+            descr.append((case, d, obs))
+            if obs != exp:
+                ctx.fail(f"position precedence: {case['entry']} {d} type={case['type']} links={case['links']} "
+                         f"supports={case['supports']} slots={case['slots']}: expected {exp}, observed {obs}",
+                         {"entry": case["entry"], "dir": d, "kind": "path", "case": case, "source": src,
+                          "observed": obs, "expected": exp},
+                         {"kind": "position-precedence", "entry": case["entry"], "dir": d})
+    for case, d, obs in descr[:2]:
+        ctx.sample({"path_case": {k: case[k] for k in ("entry", "type", "links", "supports", "slots")}, "dir": d, "observed": obs}, limit=8)
+
+    def compare(name, imports, gen_imports, defs, needs):
+        bad, log = vlib.coq_bad_idx(name.replace("-", "_"), imports, gen_imports, defs, coq_cases, "path_ok", "path_case",
+                                    shard=400, needs=needs)
+        if bad is None:
+            ctx.correspondence(name, len(coq_cases), -1, log)
+            ctx.not_shown("correspondence " + name, log)
+            return False
+        det = [f"{descr[i][0]['entry']} {descr[i][1]} type={descr[i][0]['type']} links={descr[i][0]['links']} "
+               f"supports={descr[i][0]['supports']} slots={descr[i][0]['slots']} observed={descr[i][2]}" for i in bad[:5]]
+        ctx.correspondence(name, len(coq_cases), len(bad), str(det))
+        if bad:
+            ctx.not_shown("correspondence " + name, str(det))
+        return True
+
+    done = False
+    kr = ctx.kernel_report
+    if all(kr.get(k, {}).get("ok") for k in ("K5", "K5P", "K8")):
+        kb = vlib.coq_make(["theories/K5PKernel.vo"])
+        if kb.ok:
+            done = compare("positions-real-classes-vs-compile-and-model",
+                           "PyK_strat OptProj Strategies Positions K5Kernel K5PKernel",
+                           "From VerifGen Require Import K5.", cp.COQ_DEFS + cp.COQ_OK_KERNEL, ["theories/K5PKernel.vo"])
+        else:
+            ctx.notes.append("K5PKernel.v does not build against the translated kernels: " + (kb.error or "")[:300])
+    if not done:
+        compare("positions-real-classes-vs-model", "PyK_strat OptProj Strategies Positions", "", cp.COQ_DEFS + cp.COQ_OK_MODEL,
+                ["theories/Positions.vo"])
+
 
 def replay(rep: dict) -> int:
+    if rep.get("kind") == "path":
+        res = exec_source(rep["source"])
+        obs = {"error": res["class_error"]} if "class_error" in res else res[rep["dir"]]
+        print("observed", obs, "expected", rep["expected"])
+        if obs != rep["expected"]:
+            print("REPRODUCED")
+            return 1
+        print("not reproduced")
+        return 0
     res = exec_source(rep["source"])
     d = rep["dir"]
     obs = {"error": res["class_error"]} if "class_error" in res else res[d]
